@@ -291,6 +291,13 @@ def Reduced.fullVector (r : Reduced τ α) (params : List α) : Except Err (List
       | [p] => .ok (fillFree m (List.replicate (nFree m) p))
       | _ => .error .valueError
 
+/-- the same when the caller's vector has another number type `ι` (e.g. Python ints / an int64
+    array): the given entries are converted (`cast`) into the buffer of the stored fixed values,
+    the fixed values themselves are not converted -/
+def Reduced.fullVectorCast {ι : Type} (cast : ι → α) (r : Reduced τ α) (params : List ι) :
+    Except Err (List α) :=
+  r.fullVector (params.map cast)
+
 /-- `ReducedMechanisticModel.enable_sensitivities(True)`: what the wrapped model's solver is asked
     for.  `none` = every parameter is fixed: the wrapped model's sensitivities are switched off and
     `simulate` appends an empty block of shape `(n_times, n_outputs, 0)` (commit f18d571).
